@@ -31,7 +31,7 @@ ASSUMPTIONS = ["optional fields from the safe class (values in [A-Za-z0-9.]+, on
 
 
 def plan(tier):
-    return {"cases": 800 if tier == "quick" else 6000, "shards": 16,
+    return {"cases": 800 if tier == "quick" else 18000, "shards": 16,
             "shard_budget_s": 300 if tier == "quick" else 3300}
 
 
